@@ -723,7 +723,17 @@ func (d *BlobberAllocation) payCancellationCharge(alloc *storageAllocationBase, 
 	blobberWritePriceWeight := float64(d.Terms.WritePrice) / float64(totalWritePrice)
 	reward, _ := currency.Float64ToCoin(float64(cancellationCharge) * blobberWritePriceWeight * passRate)
 
-	err := sp.DistributeRewards(reward, d.BlobberID, spenum.Blobber, spenum.CancellationChargeReward, balances, alloc.ID)
+	// a killed or under-staked stake pool takes no rewards (DistributeRewards moves nothing),
+	// so nothing is charged to the write pool for it either
+	stake, err := sp.TotalStake()
+	if err != nil {
+		return 0, fmt.Errorf("failed to get stake, blobber: %s, err: %v", d.BlobberID, err)
+	}
+	if sp.IsDead() || stake < sp.GetSettings().MinStake {
+		return 0, nil
+	}
+
+	err = sp.DistributeRewards(reward, d.BlobberID, spenum.Blobber, spenum.CancellationChargeReward, balances, alloc.ID)
 	if err != nil {
 		return 0, fmt.Errorf("failed to distribute rewards, blobber: %s, err: %v", d.BlobberID, err)
 	}
